@@ -19,6 +19,7 @@ import (
 	"encoding/json"
 	"fmt"
 	"net/netip"
+	"runtime/debug"
 	"sort"
 	"strconv"
 	"sync"
@@ -530,6 +531,12 @@ func join4(o [4]string) string { return o[0] + "." + o[1] + "." + o[2] + "." + o
 
 func main() {
 	r := vk.Start("C15", "exploration")
+
+	// Every parser call compiles two regular expressions: tens of short-lived allocations per
+	// evaluation against a live heap of a few MB, i.e. a GC cycle every few milliseconds on 16
+	// cores. Collect on a 512 MB ceiling instead of on heap growth.
+	debug.SetGCPercent(-1)
+	debug.SetMemoryLimit(512 << 20)
 
 	if err := spec.AddrSelfTest(); err != nil {
 		r.Machinery("%v", err)
